@@ -194,6 +194,9 @@ func watchdog() {
 			if props[0] == "C11" && strings.Contains(strings.ToLower(frames), "stop") {
 				props = append(props, "C09") // a stop call is among the blocked: both properties rule it out
 			}
+			if strings.Contains(frames, "attemptAcquire") || strings.Contains(frames, "attemptPriorityTakeover") || strings.Contains(frames, "checkKeyAndReelect") {
+				props = append(props, "C06") // an acquisition attempt is among the blocked: a vacancy cannot be filled
+			}
 			for _, prop := range props {
 				res.Viol = append(res.Viol, h.Violation{Prop: prop, Clause: "deadlock", Sig: "deadlock:" + frames,
 					Detail: "no goroutine runnable in two dumps 2 s apart; library goroutines blocked on a mutex: " + frames})
